@@ -98,3 +98,18 @@ package bridgesync
 //@   ensures[no-transaction-no-success] lastTx == old(lastTx) ==> result != nil
 //@   ensures[halt-cleared-only-by-a-committed-reorg] p.halted != old(p.halted) ==> (result == nil && !p.halted && lastTx != old(lastTx) && txState(lastTx) == 1)
 //@   ensures[failed-reorg-keeps-halt] result != nil ==> p.halted == old(p.halted)
+
+// ---- claim details from the bridge call (C20): a call is accepted only if its global index equals the event's
+// (full-width comparison); on acceptance every recorded detail comes from that call's arguments and the sender.
+//@ func (c *Claim) decodeEtrogCalldata
+//@   props C20
+//@   requires c != nil && c.GlobalIndex != nil && len(data) >= 11
+//@   requires typeIs(data[2], *big.Int) ==> cast(data[2], *big.Int) != nil
+//@   modifies *c
+//@   ensures[only-the-matching-index] result0 ==> typeIs(data[2], *big.Int) && bigval(cast(data[2], *big.Int)) == bigval(c.GlobalIndex)
+//@   ensures[other-index-leaves-claim-untouched] (typeIs(data[2], *big.Int) && bigval(cast(data[2], *big.Int)) != old(bigval(c.GlobalIndex))) ==> !result0 && result1 == nil && *c == old(*c)
+//@   ensures[error-means-not-found] result1 != nil ==> !result0
+//@   ensures[index-untouched] c.GlobalIndex == old(c.GlobalIndex)
+//@   ensures[details-of-that-call] result0 ==> c.MainnetExitRoot == hashOf(unbox(data[3], [32]byte)) && c.RollupExitRoot == hashOf(unbox(data[4], [32]byte)) && c.DestinationNetwork == unbox(data[7], uint32) && c.Metadata == unbox(data[10], []byte) && c.FromAddress == senderAddr && c.GlobalExitRoot == H(c.MainnetExitRoot, c.RollupExitRoot)
+//@   ensures[proofs-of-that-call] result0 ==> forall(k, 0, 32, c.ProofLocalExitRoot[k] == hashOf(unbox(data[0], [32][32]byte)[k]) && c.ProofRollupExitRoot[k] == hashOf(unbox(data[1], [32][32]byte)[k]))
+//@   loop 0 unroll 32
